@@ -79,8 +79,8 @@ func init() {
 	}
 	Props["C12"] = &PropSpec{
 		Level:       "other",
-		Rules:       []string{"R31", "R32", "R33", "R47"},
-		Explanation: "Row-completeness clauses for all (count, positive page size): typestate of the page buffer over all paths — every appended feature is flushed exactly once before WriteFeatures returns (R31); every flushed feature is inserted exactly once through a statement prepared on the page's transaction, which is committed on every normal path, with the extent accumulated over every feature, only through the two known idioms, and merged after commit (R32); attribute/geometry column order agrees between selectSQL, insertSQL, createSQL, ReadFeatures and writeFeatures (R33); the target table is registered from the source table's own description and every catalogue column is scanned into the field it describes, and every geometry type name the library writes maps back to its type (R47).",
+		Rules:       []string{"R31", "R32", "R33", "R47", "R34"},
+		Explanation: "Row-completeness clauses for all (count, positive page size): typestate of the page buffer over all paths — every appended feature is flushed exactly once before WriteFeatures returns (R31); every flushed feature is inserted exactly once through a statement prepared on the page's transaction, which is committed on every normal path, with the extent accumulated over every feature, only through the two known idioms, and merged after commit (R32); attribute/geometry column order agrees between selectSQL, insertSQL, createSQL, ReadFeatures and writeFeatures (R33); the target table is registered from the source table's own description and every catalogue column is scanned into the field it describes, and every geometry type name the library writes maps back to its type (R47); the page size the user gives reaches TargetGeopackage.pagesize unchanged (R34).",
 		Decided:     []string{"one flush per buffered feature incl. the final partial page (R31)", "one INSERT per flushed feature in a committed transaction; extent over all rows (R32)", "column order agreement (R33)", "schema (name, columns, geometry column/type, srs) copied field by field for every table (R47)"},
 		NotDecided:  []string{"what SQLite/SpatiaLite do with the statements (rtree triggers, gpkg_contents arithmetic, schema copy)", "dropped Commit error (only matters under I/O faults, outside the quantifier)"},
 	}
